@@ -172,12 +172,16 @@ def bracket_exclusion(rhos, w):
     up = success(rhos, w, ms)
     if up < 1e-6:
         # polish towards an exactly excluding measurement: compress every M_i into the kernel of rho_i, renormalise
+        # (the renormalisation moves the supports by O(|S - I|), so every pass squares the residual)
         ks = [kernel_projector(r) for r in rhos]
-        ms2 = repair_povm([k @ m @ k for k, m in zip(ks, ms)])
-        if ms2 is not None and _exact_povm(ms2):
+        for _ in range(4):
+            ms2 = repair_povm([k @ m @ k for k, m in zip(ks, ms)])
+            if ms2 is None or not _exact_povm(ms2):
+                break
             up2 = success(rhos, w, ms2)
-            if up2 < up:
-                up, ms = up2, ms2
+            if up2 >= up:
+                break
+            up, ms = up2, ms2
     up = up + ARITH
 
     yv = cp.Variable((d, d), hermitian=True)
